@@ -10,7 +10,7 @@ THEOREMS = ["c08_self_or_admin", "c08_admin_only", "c08_other_tokens_need_u2f", 
 TRUSTED = [
     "checkAuth runs in front of the model: the model starts from the authenticated (user, level) of a valid session cookie or a verified keymaster client-certificate chain (Model/Auth.v is the model of checkAuth; lemma authenticate_is_check_auth relates the two)",
     "profile storage (SQLite, gob) is a map from user to profile; the harness reads the raw rows of every user before and after each request",
-    "cryptographic verification of a submitted U2F registration / TOTP code is an input of the model; the harness produces genuine ones with a software U2F token and the TOTP secret (no software WebAuthn authenticator: webauthnFinishRegistration is exercised up to the verifier only)",
+    "cryptographic verification of a submitted U2F registration / TOTP code is an input of the model; the harness produces genuine ones with a software U2F / WebAuthn ('none' attestation) token and the TOTP secret",
     "the group directory is gitdb on local directories (the production user-info backend, configured through the YAML keys) and an unparsable LDAP URL for 'directory does not answer'; a real LDAP server is not exercised",
     "the clock of the production admincache.Cache is replaced through an accessor overlaid into keymasterd/admincache at check time (harness/admincache/export.go); Get and Put see the same reading within one IsAdminUser call in the traces (distinct readings are exercised op by op in the package-level harness)",
 ]
@@ -58,7 +58,6 @@ def run(ctx):
             corr(ctx, res2, "c08_cache_mismatches", "admincache Get/Put on %s op traces under an injected clock = Model.AdminCache.crun" % res2.get("c08_cache_ntraces", "?"), "CasesC08Cache.idx")
     ctx.assumptions = ["the requests of the matrix carry no Origin/Referer header (CSRF handling belongs to C06)",
                        "one IsAdminUser call per request decides the verdict (profileHandler asks a second time only to decide whether to show a link)"]
-    unproved = ["the WebAuthn attestation verifier and the effect of a successful webauthnFinishRegistration are modelled but not exercised (no software authenticator); its authorization test is exercised",
-                "refreshRoleRequestingCert (renewal by the certificate holder itself) is outside this check (C11/C06)"]
+    unproved = ["refreshRoleRequestingCert (renewal by the certificate holder itself) is outside this check (C11/C06)"]
     return ctx.finish("bin/build-coq; coqc Audit_Props_C08/Obl_C08/CasesC08/CasesC08Cache (lib/checks/c08.py); go test -overlay TestVerif_C08 (cmd/keymasterd), TestVerif_C08Cache (keymasterd/admincache)",
                       COMMON_TRUSTED + TRUSTED, unproved)
